@@ -19,7 +19,7 @@ pub fn bytes_at(addr: usize, n: usize) -> Vec<u8> {
 
 /// up to 32 bytes at `addr` (fewer when the mapping ends earlier)
 pub fn img(addr: usize) -> Vec<u8> {
-    for n in [32usize, 24, 16, 8] {
+    for n in [32usize, 24, 16, 8, 6, 5] {
         if let Some(v) = crate::maps::read_vec(addr, n) {
             return v;
         }
